@@ -28,7 +28,7 @@ func init() {
 
 var stdHost = &yc.HostSpec{
 	Funcs: []yc.FuncSpec{{Name: "probe", Echo: true}, {Name: "note"}},
-	Cmds:  []yc.CmdSpec{{Name: "act"}, {Name: "beep"}},
+	Cmds:  []yc.CmdSpec{{Name: "act"}, {Name: "beep"}, {Name: "later", Deferred: true}, {Name: "laterfail", Deferred: true, Fails: true}},
 	Vars:  map[string]yc.Value{"f": yc.Bool(false)},
 }
 
@@ -166,10 +166,10 @@ func runC01(ctx *report.Ctx) {
 
 	// F3: effects
 	f3size := report.Pick(ctx, 2, 3)
-	ctx.Bound("F3", fmt.Sprintf("<=%d statements over 1..2 nodes, F1 alphabet plus declare, call (with and without result), immediate commands, jump by expression", f3size))
+	ctx.Bound("F3", fmt.Sprintf("<=%d statements over 1..2 nodes, F1 alphabet plus declare, call (with and without result), immediate commands, commands completed by the host after one poll, jump by expression", f3size))
 	part(ctx, "F3", -1, func(c *explore.Chooser) {
 		g := &progGen{c: c, rem: f3size, maxDepth: 1, maxOpts: 2, maxCl: 1, conds: condsF,
-			kinds: []string{"line", "opts", "if", "setT", "jump", "stop", "declare", "call", "cmd", "jumpexpr", "setn", "linevar"},
+			kinds: []string{"line", "opts", "if", "setT", "jump", "stop", "declare", "call", "cmd", "jumpexpr", "setn", "linevar", "dcmd"},
 			extra: map[string]func(g *progGen) *yc.Stmt{
 				"declare": func(g *progGen) *yc.Stmt { return yc.Declare("d", yc.ENumber(1)) },
 				"call": func(g *progGen) *yc.Stmt {
@@ -180,6 +180,10 @@ func runC01(ctx *report.Ctx) {
 				},
 				"cmd": func(g *progGen) *yc.Stmt {
 					return yc.Command("act", yc.CmdArg{Word: "x"}, yc.CmdArg{E: yc.EVariable("f")})
+				},
+				"dcmd": func(g *progGen) *yc.Stmt {
+					// a command that completes only after the first poll (the host completes it between two calls)
+					return yc.Command("later", yc.CmdArg{Word: fmt.Sprint(g.lineNo)})
 				},
 				"jumpexpr": func(g *progGen) *yc.Stmt {
 					t := g.nodes[g.c.Choose(len(g.nodes), "target")]
